@@ -3,7 +3,7 @@
 # Evaluates a seeded change against the CURRENT /repo HEAD: fresh scratch worktree + the patch, checks run with
 # VERIF_REPO pointing at it (nothing in /repo or /verif/evidence changes); the worktree is removed afterwards.
 set -u
-d=$1; tier=$2; shift 2
+d=$(readlink -f "$1"); tier=$2; shift 2
 n=$(basename $d)
 wt=/tmp/wt/E_$n
 git -C /repo worktree remove --force $wt >/dev/null 2>&1
